@@ -71,7 +71,7 @@ func (r *Real32) MAX(a, b *Real32) Scalar {
 func (c *Real32) ABS(a *Real32) Scalar {
   switch a.Sign() {
   case -1: c.NEG(a)
-  case 0: c.Reset()
+  case 0: c.Set(ConstFloat32(math.Abs(a.GetFloat64())))
   case 1: c.SET(a)
   }
   return c
